@@ -32,7 +32,7 @@ RULE = ("case = pair of finite generated diagrams (sizes 0..40 quick / 0..150 th
 ASSUMPTIONS = [
     "any permutation of a str-keyed set is a legal CPython iteration order",
     "row costs are recomputed by my own L-infinity / Euclidean / diagonal formulas; Wasserstein cross costs are "
-    "compared with atol 1e-6*(M+N)*max|coordinate| because scikit-learn's expanded quadratic form has sqrt(eps) "
+    "compared with atol 2e-7*max|coordinate| per row (2e-7*(M+N)*max|coordinate| for the sum) because scikit-learn's expanded quadratic form has sqrt(eps) "
     "absolute noise for near-coincident points (DESIGN.md section 3)",
     "sampling, not proof",
 ]
@@ -41,6 +41,9 @@ REAL_COMPONENTS = ["persim.bottleneck, persim.wasserstein (working tree)", "hopc
                    "real CPython set order in the PYTHONHASHSEED sweep"]
 STUB_COMPONENTS = ["builtin set inside hopcroftkarp -> SimSet (simulated phase only); the Wasserstein half has no "
                    "nondeterminism to stub"]
+
+
+reset_world = mc.reset_world
 
 
 def gen_case(rng, tier):
@@ -90,7 +93,7 @@ def validate(kind, d, rows, S, T, where, scale):
             raise Violation("every-point-exactly-once", site, d_ + "/" + tagsz,
                             "%s indices in matching are %r, expected each of 0..%d once (%s); rows=%r"
                             % (name, got, n - 1, where, rows.tolist()))
-    tol_cross = 1e-12 * scale if kind == "bottleneck" else 1e-6 * (M + N) * scale
+    tol_cross = 1e-12 * scale if kind == "bottleneck" else 2e-7 * scale
     tol_diag = 1e-12 * scale if kind == "bottleneck" else 1e-9 * scale
     tot = 0.0
     mx = 0.0
@@ -116,7 +119,7 @@ def validate(kind, d, rows, S, T, where, scale):
                             "max pairing cost %r (column max %r) but reported distance %r (%s)"
                             % (mx, float(np.max(cc)), d, where))
     else:
-        tol = 1e-6 * (M + N) * scale * max(1, len(rows))
+        tol = 2e-7 * (M + N) * scale
         if not abs(tot - d) <= tol or not abs(float(np.sum(cc)) - d) <= 1e-9 * max(abs(d), scale):
             raise Violation("sum-row-cost==distance", site, ("lt" if tot < d else "gt") + "/" + tagsz,
                             "sum of pairing costs %r (column sum %r) but reported distance %r (%s)"
